@@ -37,7 +37,32 @@ def classify_diff(prj, spec, fs, actual, new):
         return "outside"
     m = mask(new)
     rx = "^" + "".join("(.*?)" if c == "\0" else re.escape(c) for c in m) + "$"
-    return "stale" if re.match(rx, text, flags=re.S) else "outside"
+    mm = re.match(rx, text, flags=re.S)
+    if not mm:
+        return "outside"
+    # 'stale' means: every occurrence still shows a rendering of its own pattern (the old one, or another version's); an occurrence slot that
+    # holds anything else (extra or missing characters around the rendering) is damage outside the matched span
+    occs = [s for segs, _ in fs.lines for s in segs if s.kind == "occ"]
+    for s_, got in zip(occs, mm.groups()):
+        try:
+            if got not in (prj.render(fs.patterns[s_.value], spec["old"]), prj.render(fs.patterns[s_.value], new)):
+                pat_ = impl_compile(prj, spec, fs.patterns[s_.value])
+                if pat_ is None or not pat_.fullmatch(got):
+                    return "outside"
+        except Exception:
+            return "outside"
+    return "stale"
+
+
+def impl_compile(prj, spec, raw):
+    try:
+        if spec["legacy"]:
+            from bumpver import v1patterns
+            return v1patterns.compile_pattern(spec["vp"], raw).regexp
+        from bumpver import v2patterns
+        return v2patterns.compile_pattern(spec["vp"], raw).regexp
+    except Exception:
+        return None
 
 
 def rfd_cases(impl, prj, spec, new, items, meta):
